@@ -102,7 +102,31 @@ func (s *c08State) logf(format string, a ...any) {
 
 // ---- model of "which pods are currently assigned to which node" (the event semantics; the sums are NOT modelled here)
 
+// shape: an assigned pod with an all-zero estimate (cached without estimation vector) that the CURRENT report shows as prod with usage
+func (s *c08State) zeroEstActiveProd(node string, uid types.UID) bool {
+	nm := s.nodes[node]
+	a := nm.pods[uid]
+	if a == nil || nm.metric == nil {
+		return false
+	}
+	for _, v := range s.env.estimate(a.pod) {
+		if v != 0 {
+			return false
+		}
+	}
+	if extension.GetPodPriorityClassWithDefault(a.pod) != extension.PriorityProd {
+		return false
+	}
+	usage, prod := c08Reported(nm.metric)
+	k := c08Key{a.pod.Namespace, a.pod.Name}
+	_, ok := usage[k]
+	return ok && prod[k]
+}
+
 func (s *c08State) mRemoved(node string, uid types.UID) {
+	if s.zeroEstActiveProd(node, uid) {
+		s.classes["zero-estimate-active-prod-pod-removed"] = true
+	}
 	if s.differs[node][uid] && s.nodes[node].metric != nil {
 		s.sawNT = true
 	}
@@ -115,6 +139,9 @@ func (s *c08State) mAssign(node string, pod *corev1.Pod) {
 	}
 	nm := s.nodes[node]
 	if _, ok := nm.pods[pod.UID]; ok {
+		if s.zeroEstActiveProd(node, pod.UID) {
+			s.classes["zero-estimate-active-prod-pod-restored"] = true
+		}
 		if s.differs[node][pod.UID] && nm.metric != nil {
 			s.classes["restore-after-differing-report"] = true
 		}
@@ -169,6 +196,15 @@ func (s *c08State) refreshDiffers(node string) {
 		}
 	}
 	s.differs[node] = d
+}
+
+func c08AllZero(v []int64) bool {
+	for _, x := range v {
+		if x != 0 {
+			return false
+		}
+	}
+	return true
 }
 
 // ---- the differential partner: a fresh cache fed the final metric and pods
@@ -270,6 +306,12 @@ func (s *c08State) check(c *vk.Case, t *rapid.T) bool {
 					}
 					if v.Reported && v.Unreflected {
 						s.classes["pod-reported-but-not-yet-reflected"] = true
+					}
+					if c08AllZero(v.Est) {
+						s.classes["zero-estimate-pod-assigned"] = true
+						if v.ActiveProd {
+							s.classes["zero-estimate-active-prod-pod-assigned"] = true
+						}
 					}
 					if v.Prod && v.Reported && !v.ActiveProd {
 						s.classes["prod-pod-reported-nonprod"] = true
